@@ -1,4 +1,5 @@
 (* C18 -- lemmas about the credentials FileStore model (Model/CredFile.v). *)
+From Coq Require Import Permutation.
 From Oras Require Import Base.Prelude Generated.GC18 Model.CredFile.
 
 (* ---------- str_eqb ---------- *)
@@ -69,6 +70,45 @@ Section AssocLemmas.
     unfold del. rewrite filter_In. simpl. rewrite negb_true_iff, str_eqb_false. tauto.
   Qed.
 End AssocLemmas.
+
+Section AssocPerm.
+  Context {V : Type}.
+  Implicit Types (l : list (str * V)).
+
+  Lemma in_lookup k v l : NoDup (map fst l) -> In (k, v) l -> lookup k l = Some v.
+  Proof.
+    induction l as [|[k' v'] l IH]; simpl; intros ND I; [contradiction|].
+    inversion ND as [|? ? NI ND']; subst.
+    destruct I as [E|I].
+    - injection E as -> ->. now rewrite str_eqb_refl.
+    - destruct (str_eqb k k') eqn:E; [|now apply IH].
+      apply str_eqb_spec in E. subst k'. elim NI. apply in_map_iff. now exists (k, v).
+  Qed.
+
+  Lemma notin_lookup k l : (forall v, ~ In (k, v) l) -> lookup k l = None.
+  Proof.
+    intro H. destruct (lookup k l) eqn:E; [|reflexivity]. apply lookup_in in E. elim (H _ E).
+  Qed.
+
+  Lemma lookup_perm k l l' : NoDup (map fst l) -> Permutation l l' -> lookup k l' = lookup k l.
+  Proof.
+    intros ND P.
+    assert (ND' : NoDup (map fst l')) by (eapply Permutation_NoDup; [apply Permutation_map; exact P|exact ND]).
+    destruct (lookup k l) eqn:E.
+    - apply lookup_in in E. apply in_lookup; [exact ND'|]. eapply Permutation_in; eauto.
+    - apply notin_lookup. intros v I. apply (lookup_none_notin _ _ E v).
+      eapply Permutation_in; [apply Permutation_sym; exact P|exact I].
+  Qed.
+
+  Lemma filter_perm (f : str * V -> bool) l l' : Permutation l l' -> Permutation (filter f l) (filter f l').
+  Proof.
+    induction 1; simpl.
+    - constructor.
+    - destruct (f x); [now constructor|assumption].
+    - destruct (f x), (f y); try apply Permutation_refl. apply perm_swap.
+    - eapply perm_trans; eauto.
+  Qed.
+End AssocPerm.
 
 Lemma auths_neq_cs : configFieldAuths <> configFieldCredentialsStore.
 Proof. intro H. apply str_eqb_spec in H. vm_compute in H. discriminate. Qed.
@@ -163,6 +203,40 @@ Section Proofs.
       { apply str_eqb_false. apply (L k e). now left. }
       rewrite F. apply IH. intros k' e' I. apply (L k' e'). now right. }
     now rewrite E.
+  Qed.
+
+  (* Go's map iteration order: [get_candidates] is exactly the set of answers
+     GetCredential can give over all orders of the (key-unique) cache *)
+  Lemma candidates_all_orders cache a r :
+    NoDup (map fst cache) ->
+    (In r (get_candidates cache a) <->
+     exists cache', Permutation cache cache' /\ get_cache cache' a = r).
+  Proof.
+    intro ND. unfold CredFile.get_candidates. split.
+    - destruct (lookup a cache) as [e|] eqn:L.
+      + intros [<-|[]]. exists cache. split; [apply Permutation_refl|].
+        unfold CredFile.get_cache. now rewrite L.
+      + destruct (legacy_matches a cache) as [|kv l] eqn:M.
+        * intros [<-|[]]. exists cache. split; [apply Permutation_refl|].
+          unfold CredFile.get_cache. now rewrite L, M.
+        * intro I. apply in_map_iff in I as ([k e] & <- & I). rewrite <- M in I.
+          unfold legacy_matches in I. apply filter_In in I as [IC T]. cbn [fst] in T.
+          destruct (in_split _ _ IC) as (l1 & l2 & ->).
+          exists ((k, e) :: l1 ++ l2). split; [apply Permutation_sym, Permutation_middle|].
+          unfold CredFile.get_cache.
+          rewrite (lookup_perm a _ _ ND (Permutation_sym (Permutation_middle l1 l2 (k, e)))), L.
+          unfold legacy_matches. cbn [filter fst]. rewrite T. reflexivity.
+    - intros (cache' & P & <-). unfold CredFile.get_cache.
+      rewrite (lookup_perm a _ _ ND P).
+      destruct (lookup a cache) as [e|] eqn:L; [now left|].
+      pose proof (filter_perm (fun kv => str_eqb (to_hostname (fst kv)) a) _ _ P) as PF.
+      fold (legacy_matches a cache) in PF. fold (legacy_matches a cache') in PF.
+      destruct (legacy_matches a cache') as [|[k e] l'] eqn:M'.
+      + apply Permutation_sym, Permutation_nil in PF. rewrite PF. now left.
+      + assert (I : In (k, e) (legacy_matches a cache)).
+        { eapply Permutation_in; [apply Permutation_sym; exact PF|now left]. }
+        destruct (legacy_matches a cache) as [|kv l]; [contradiction|].
+        apply in_map_iff. now exists (k, e).
   Qed.
 
   (* ----- one step ----- *)
@@ -397,3 +471,12 @@ Section Proofs.
       destruct (m_cs (st_mem stf)); reflexivity.
   Qed.
 End Proofs.
+
+(* ----- the defect fixed in config.Load (kept as a witness) ----- *)
+Lemma null_document_refuted :
+  exists j cache, save_content_prefix (load_content_prefix j) cache = None.
+Proof. exists JNull, []. reflexivity. Qed.
+
+Lemma null_document_fixed :
+  forall j cache, save_content_prefix (load_content j) cache <> None.
+Proof. intros [|d] cache; discriminate. Qed.
